@@ -100,3 +100,26 @@ Proof.
       - rewrite (nth_indep _ NaN (snd (0%nat, NaN))) by (rewrite map_length; auto). rewrite map_nth. reflexivity. }
   rewrite <- Ep. apply nth_In. exact Hk'.
 Qed.
+
+(* the slackness loop at the end of augment (:455-459) is defined whenever every x[i] is a listed column of row i *)
+Theorem final_u_defined n tri v : NoDup (map fst tri) -> forall x,
+  length x = n -> (forall i, (i < n)%nat -> exists c, In (nth i x n, c) (row (rows_of n tri) i)) ->
+  exists u, final_u (rows_of n tri) x v = Some u /\ length u = n.
+Proof.
+  intros Hp. unfold rows_of.
+  assert (G : forall k a x, length x = k -> (a + k <= n)%nat ->
+            (forall t, (t < k)%nat -> exists c, In (nth t x n, c) (row (rows_of n tri) (a + t))) ->
+            exists u, final_u (map (fun i => row_of i tri []) (seq a k)) x v = Some u /\ length u = k).
+  { induction k as [|k IH]; intros a x Lx Hak Hl.
+    - destruct x; [|discriminate]. exists []. split; reflexivity.
+    - destruct x as [|j xr]; [discriminate|]. cbn [seq map final_u].
+      destruct (Hl 0%nat ltac:(lia)) as [c Hc]. cbn [nth] in Hc. rewrite Nat.add_0_r in Hc.
+      destruct (cost_at_listed n tri a j c Hp Hc) as [c' [E _]].
+      rewrite rowget_rows_of in E. replace (a <? n)%nat with true in E by (symmetry; apply Nat.ltb_lt; lia).
+      rewrite E.
+      destruct (IH (S a) xr) as [u [Eu Lu]]; [cbn in Lx; lia|lia| |].
+      + intros t Ht. destruct (Hl (S t) ltac:(lia)) as [c0 H0]. cbn [nth] in H0.
+        replace (a + S t)%nat with (S a + t)%nat in H0 by lia. eauto.
+      + rewrite Eu. eexists. split; [reflexivity|]. cbn [length]. lia. }
+  intros x Lx Hl. apply (G n 0%nat x Lx); auto.
+Qed.
